@@ -765,7 +765,12 @@ class SrvAdapter:
         for ns in hidden:
             hidden_sids.update((m.rooms.get(ns) or {}).get(None) or {})
         cb = {}
-        for sid, d in m.callbacks.items():
+        # (the ack-id counters live in their own table: a counter without a
+        # callbacks entry is still something the manager keeps for the client)
+        cbs_all = dict(m.callbacks)
+        for sid in getattr(m, 'ack_counters', {}):
+            cbs_all.setdefault(sid, {})
+        for sid, d in cbs_all.items():
             if sid in hidden_sids:
                 continue
             n = self._name(sid) if sid in self.names else self._room_tok(sid)
